@@ -571,8 +571,13 @@ def pick_tree_race(rng, g, v, profile):
         return [first, other]
     if scen == 'rcdelete-vs-inv':
         rc = rng.choice(gen.CUSTOM_RCS)
+        if rng.random() < 0.5:
+            return [{'op': 'rc_delete', 'mv': 39, 'name': rc},
+                    {'op': 'inv_add', 'mv': 39, 'uuid': a, 'inv': ops.inv(rc, 4)}]
+        cur = [ops.inv(k[1], i['total'], reserved=i['reserved'], min_unit=i['min_unit'], max_unit=i['max_unit'],
+                       step_size=i['step_size'], ratio=i['ratio']) for k, i in sorted(v.invs.items()) if k[0] == a and k[1] != rc]
         return [{'op': 'rc_delete', 'mv': 39, 'name': rc},
-                {'op': 'inv_add', 'mv': 39, 'uuid': a, 'inv': ops.inv(rc, 4)}]
+                {'op': 'inv_set', 'mv': 39, 'uuid': a, 'gen': v.rps[a]['gen'], 'invs': cur + [ops.inv(rc, 4)]}]
     tr = rng.choice(gen.CUSTOM_TRAITS)
     return [{'op': 'trait_delete', 'mv': 39, 'name': tr},
             {'op': 'rp_traits_set', 'mv': 39, 'uuid': a, 'gen': v.rps[a]['gen'], 'traits': [tr]}]
